@@ -1,3 +1,4 @@
+import os
 """Direct oracles on the real code for C03–C08 (all nine schemes).  Each oracle takes a generated case
 (schemes_check.gen_cases) and reports violations with the concrete failing input."""
 import copy
@@ -656,3 +657,82 @@ def c07(res, c, rng):
                 break
     except Exception as e:
         sk.violation(res, f"{name}: a second setup on the same scheme object raises {type(e).__name__}", f"{name}: {e}", sk.show_case(c))
+
+
+def c07_inputs_only(res, c, label):
+    """EDBSetup on a variant of the case's database (e.g. one with a repeated identifier in a list): whatever the scheme makes
+    of it - an index or an exception - the caller's database, configuration dict and key must be what they were"""
+    name = c["name"]
+    ld = se.loader(name)
+    cfg = copy.deepcopy(c["cfg"])
+    cfg_before = copy.deepcopy(cfg)
+    db = c["db"]
+    db_before = copy.deepcopy(db)
+    order_before = list(db.keys())
+    try:
+        scheme = ld.SSEScheme(cfg)
+        key = scheme.KeyGen()
+    except Exception:
+        return
+    try:
+        scheme.EDBSetup(key, db)
+    except Exception:
+        pass
+    if db != db_before or list(db.keys()) != order_before:
+        sk.violation(res, f"{name}: EDBSetup changes the caller's database ({label})", f"{name} ({c['profile']}, {label})",
+                     sk.show_case(dict(c, db=db_before)))
+    if cfg != cfg_before:
+        sk.violation(res, f"{name}: building the scheme / index changes the caller's configuration dict ({label})",
+                     f"{name}: {cfg} vs {cfg_before}", sk.show_case(dict(c, db=db_before)))
+
+
+def with_repeated_identifier(c):
+    """the case with one identifier of its longest list repeated (same total size): a multiset posting list"""
+    db = copy.deepcopy(c["db"])
+    w = max(db, key=lambda k: len(db[k]))
+    if len(db[w]) < 2:
+        return None
+    db[w][-1] = db[w][0]
+    return dict(c, db=db, profile=c["profile"] + "+repeated-id")
+
+
+def c03_crossproc(res, c, max_words=6):
+    """the split across REAL process boundaries: index built in one interpreter, tokens made in a second (fresh instance, key
+    reloaded from bytes), searched in a third that holds only the JSON configuration, the serialized index and the serialized
+    tokens - each with its own hash seed.  Anything that is valid only inside the process that made it (ids, hash() values,
+    interned objects, module-level state) fails here and nowhere else."""
+    import subprocess, tempfile, shutil, sys as _sys
+    import common
+    name = c["name"]
+    words = (c["present"][:max_words - 2] + c["absent"][:2])[:max_words]
+    base = os.path.join(common.CACHE, "xproc")
+    os.makedirs(base, exist_ok=True)
+    d = tempfile.mkdtemp(dir=base)
+    try:
+        json.dump(c["cfg"], open(os.path.join(d, "config.json"), "w"))
+        json.dump({k.hex(): [i.hex() for i in v] for k, v in c["db"].items()}, open(os.path.join(d, "db.json"), "w"))
+        json.dump({"module": se.MODULE[name], "words": [w.hex() for w in words]}, open(os.path.join(d, "meta.json"), "w"))
+        worker = os.path.join(os.path.dirname(os.path.abspath(__file__)), "xproc_worker.py")
+        for mode, seed in (("setup", "101"), ("tokens", "202"), ("server", "303")):
+            env = dict(os.environ, PYTHONHASHSEED=seed, SSEPY_REPO=common.REPO)
+            p = subprocess.run([_sys.executable, worker, mode, d], env=env, stdout=subprocess.PIPE, stderr=subprocess.STDOUT, text=True, timeout=600)
+            if p.returncode != 0:
+                if mode == "setup":
+                    return          # C01's business
+                sk.violation(res, f"{name}: client/server split across processes raises in the {mode} process",
+                             f"{name} ({c['profile']}): {p.stdout.strip().splitlines()[-1][:200] if p.stdout.strip() else ''}", sk.show_case(c))
+                return
+        ld = se.loader(name)
+        conf = ld.SSEScheme(json.loads(json.dumps(c["cfg"]))).config
+        for i, w in enumerate(words):
+            res.count("cross-process searches")
+            try:
+                got = result_of(name, ld.SSEResult.deserialize(open(os.path.join(d, f"res_{i}.bin"), "rb").read(), conf))
+            except Exception as e:
+                sk.violation(res, f"{name}: result from the server process cannot be deserialized", f"{name}: {type(e).__name__}: {e}", sk.show_case(c, w))
+                continue
+            if got != se.expected(name, c["db"], w):
+                sk.violation(res, f"{name}: a server in another process, holding only the serialized index and token, answers differently from DB.get(w)",
+                             f"{name} ({c['profile']}): keyword {w.hex()}: {len(got)} identifiers vs {len(c['db'].get(w, []))}", sk.show_case(c, w))
+    finally:
+        shutil.rmtree(d, ignore_errors=True)
